@@ -35,7 +35,11 @@ pub fn replay_probe<H: HB>(c: &Case, q: &AnyQ<H>, m: &Model, unordered: bool) ->
         }
         _ => {}
     }
-    for p in all_probes::<H>(&c.prop, &c.universe) {
+    let mut ps = all_probes::<H>(&c.prop, &c.universe);
+    if name == "iter_mut-collect-then-write" {
+        ps = all_probes::<H>("C08-late-write", &c.universe);
+    }
+    for p in ps {
         if name == "state-probes" || p.name() == name {
             p.on_state(q, m, unordered)?;
         }
@@ -57,6 +61,7 @@ pub fn all_probes<H: HB>(prop: &str, universe: &[u32]) -> Vec<Box<dyn Probe<H>>>
         "C11" | "C03" => vec![Box::new(OfferedVsStored { universe: universe.to_vec() })],
         "C05" => vec![Box::new(ZeroCost)],
         "C08" => vec![Box::new(BulkMutationPrograms { universe: universe.to_vec(), prios, all_tables: false })],
+        "C08-late-write" => vec![Box::new(LateWrite { universe: universe.to_vec(), prios: prios.clone() })],
         "C08t" => vec![Box::new(BulkMutationPrograms { universe: universe.to_vec(), prios, all_tables: true })],
         "C14" => vec![Box::new(CloneIndependence { universe: universe.to_vec(), prios })],
         "C17" => vec![Box::new(CapacityTwin { universe: universe.to_vec(), prios, huge: true })],
@@ -1033,6 +1038,60 @@ impl ZeroCost {
 impl<H: HB> Probe<H> for ZeroCost {
     fn name(&self) -> String {
         "zero-comparison-observers".into()
+    }
+    fn on_state(&self, q: &AnyQ<H>, m: &Model, _unordered: bool) -> Result<u64, String> {
+        with_q!(q, x => self.run(x, m))
+    }
+}
+
+/// C08 (known finding D8): the references yielded by iter_mut are not tied to the iterator, so they can
+/// be collected, the iterator consumed and dropped (heap rebuilt), and a priority written AFTERWARDS.
+/// The property demands that every priority written through iter_mut is the element's priority
+/// afterwards and that the queue is correctly ordered again.
+pub struct LateWrite {
+    pub universe: Vec<u32>,
+    pub prios: Vec<i32>,
+}
+
+impl LateWrite {
+    fn run<Q: QueueLike>(&self, q: &Q, m: &Model) -> Result<u64, String> {
+        let mut cases = 0;
+        let n = m.len();
+        if n < 2 {
+            return Ok(0);
+        }
+        let hi = m.values().map(|v| v.1).max().unwrap().saturating_add(1);
+        let lo = m.values().map(|v| v.1).min().unwrap().saturating_sub(1);
+        for j in 0..n {
+            for &np in self.prios.iter().chain([hi, lo].iter()) {
+                cases += 1;
+                let mut c = q.clone();
+                let mut mm = m.clone();
+                {
+                    let mut it = c.q_iter_mut();
+                    let mut v: Vec<(&mut Item, &mut Prio)> = vec![];
+                    while let Some(x) = it.nx() {
+                        v.push(x);
+                    }
+                    // the iterator is gone (as after `.collect()`, `.last()`, `.nth(k)` by value ...)
+                    drop(it);
+                    let (i, p) = &mut v[j];
+                    **p = Prio::new(np);
+                    mm.get_mut(&i.key).unwrap().1 = np;
+                }
+                let s = c.snap();
+                check_state(&c, &s, &mm, false, &self.universe).map_err(|e| {
+                    format!("`let v: Vec<_> = q.iter_mut().collect(); *v[{j}].1 = {np};` on {:?} (the iterator is consumed and dropped before the write): {e}", q.snap().slots)
+                })?;
+            }
+        }
+        Ok(cases)
+    }
+}
+
+impl<H: HB> Probe<H> for LateWrite {
+    fn name(&self) -> String {
+        "iter_mut-collect-then-write".into()
     }
     fn on_state(&self, q: &AnyQ<H>, m: &Model, _unordered: bool) -> Result<u64, String> {
         with_q!(q, x => self.run(x, m))
